@@ -1700,6 +1700,13 @@ func (r *replicateChannelHandler) handleStreamPack(forward bool, pack *msgstream
 					VChannel: info.VChannel,
 				})
 				r.RemovePartitionInfo(sourceCollectionID, realMsg.PartitionName, partitionID)
+				// the name cache holds the downstream id, which RemovePartitionInfo can't compare with the source id:
+				// forget the name here, or a partition created again under this name keeps the dropped one's id
+				r.recordLock.Lock()
+				if info.PartitionInfo[realMsg.PartitionName] == realMsg.PartitionID {
+					delete(info.PartitionInfo, realMsg.PartitionName)
+				}
+				r.recordLock.Unlock()
 			}
 		case *msgstream.ImportMsg:
 			if info.Dropped {
